@@ -131,6 +131,29 @@ CLAIMED.update({
    design="6 (C20)", technique="Coq proof (structural round trip, Permutation-invariance of the visitor fold) + serde_json tree/document correspondence"),
 })
 
+CLAIMED.update({
+ "C11": dict(
+   text="Machine-checked Coq theorems over the reals, for vectors of dimension 1-4, quaternions and points 1-3: magnitude^2 = magnitude2 >= 0; distance is symmetric, equals magnitude(u - v) and "
+        "distance2 is its square; for v of non-zero length normalize_to(v, m) has length |m| and is v times a factor that is positive for m > 0, normalize = normalize_to(1); "
+        "angle(u,v) satisfies |u||v| cos(angle) = u.v, lies in [0, pi] and is symmetric for dimensions 1, 3, 4 and quaternions (Cauchy-Schwarz via Lagrange's identity; 3-D through atan2(|u x v|, u.v) "
+        "with |u||v| sin = |u x v|); in 2-D it is the signed counter-clockwise angle in [-pi, pi] (|u||v| sin = perp_dot, and rotating u by it gives the direction of v); "
+        "project_on(u,v) = v (u.v / v.v) with u - project_on(u,v) orthogonal to v (any field). " + TIE +
+        "Inputs have rational lengths so that every square root is exact; angle pairs lie at lattice directions of rational planes so that acos/atan2 are answered exactly.",
+   note=NOTE + RAX + "sqrt/acos/atan2 are the real functions (oracles for f32/f64); native f64 is sampled with a 1e-9 tolerance only as an executed predicate.",
+   design="6 (C11)", technique="Coq proof (real analysis: sqrt, acos, atan2 characterisation, Lagrange identity; field for project_on) + exact-rational correspondence"),
+ "C13": dict(
+   text="Machine-checked Coq theorems: over R, for any unit with positive full turn T: normalize(a) is the unique representative of a in [0,T), normalize_signed(a) the one in (-T/2, T/2], "
+        "each differing from a by a whole number of turns; opposite(a) = normalize(a + T/2); bisect(a,b) is at signed distance -d/2 from a and +d/2 from b, d the shortest signed difference, hence "
+        "equidistant and at most T/4 from each (the code as repaired by the fix: commit; the previous formula is refuted with the witness Deg(0).bisect(Deg(90)) = 315); turn_div_k * k = full turn, "
+        "full turns are 360 and cast(2 pi) (within 2.5e-16 of 2 pi); sin/cos/tan/sin_cos/csc/sec/cot are the scalar functions of the radian measure (Deg: d * cast(pi/180)), inverse functions return the "
+        "principal value converted to the caller's unit; + - * / % Sum act on the number. Native floats (Flocq, binary32 and binary64, round to nearest even, no overflow): Deg->Rad->Deg and "
+        "Rad->Deg->Rad are within 4 machine epsilons above the subnormal range, and for EVERY input the rounded normalize stays in [0, full turn], normalize_signed in [-half, half]. " + TIE +
+        "Native f32/f64 boundary sweeps and bitwise trig-wiring comparisons are executed predicates.",
+   note=NOTE + RAX + "Flocq and the interval tactic add Classical_Prop.classic and the standard library's primitive-integer/float primitives (allowlisted by pattern). "
+        "Float clauses assume fmod exact and no overflow; libm accuracy is outside the property.",
+   design="6 (C13)", technique="Coq proof (modular arithmetic over R; Flocq rounding model for the float clauses; interval for constants) + exact-rational and native-float correspondence"),
+})
+
 def main():
     checks = []
     for pid in ALL:
